@@ -318,7 +318,19 @@ struct Dumper {
     if (auto *FPT = FD->getType()->getAs<FunctionProtoType>()) O["nothrow"] = FPT->isNothrow();
     if (auto *MD = dyn_cast<CXXMethodDecl>(FD)) { O["cls"] = qname(MD->getParent()); O["const"] = MD->isConst(); O["static"] = MD->isStatic(); }
     json::Array P;
-    for (auto *PD : FD->parameters()) { json::Object PO; PO["name"] = PD->getNameAsString(); PO["id"] = declId(PD); PO["type"] = ty(PD->getType()); P.push_back(std::move(PO)); }
+    for (auto *PD : FD->parameters()) {
+      json::Object PO; PO["name"] = PD->getNameAsString(); PO["id"] = declId(PD); PO["type"] = ty(PD->getType());
+      // default argument (sibling functions that forward to one another must agree on it); an uninstantiated one is taken from the pattern
+      const ParmVarDecl *DP = PD;
+      if (PD->hasUninstantiatedDefaultArg() || (!PD->hasDefaultArg() && FD->getTemplateInstantiationPattern())) {
+        if (auto *Pat = FD->getTemplateInstantiationPattern()) { unsigned i = PD->getFunctionScopeIndex(); if (i < Pat->getNumParams()) DP = Pat->getParamDecl(i); }
+      }
+      if (DP->hasDefaultArg() && !DP->hasUnparsedDefaultArg()) {
+        const Expr *DE = DP->hasUninstantiatedDefaultArg() ? DP->getUninstantiatedDefaultArg() : DP->getDefaultArg();
+        if (DE) PO["default"] = stmt(DE);
+      }
+      P.push_back(std::move(PO));
+    }
     O["params"] = std::move(P);
     if (auto *CD = dyn_cast<CXXConstructorDecl>(FD)) {
       json::Array I;
